@@ -219,6 +219,14 @@ def session(case, ctx):
             ctx.check(r[1] != 1, "read after the peer's orderly close returned data: %s" % (r,), "close/%s" % proto)
         b.do("close")
         a.result(timeout=20.0)
+        # a reader that asks again after the close (its transport is shut down now) still gets no data: the bytes of the close alert are not
+        # application data and were never written by the peer
+        for _ in range(2):
+            r2 = b.do("recv", 100, timeout=20.0)
+            if r2[0] == "timeout":
+                break
+            ctx.check(not (r2[1] == 1 and len(r2[2]) > 0), "a second read after the peer's orderly close delivered %d bytes the peer never wrote: %s" %
+                      (len(r2[2]) if r2[1] == 1 else 0, r2[2][:16].hex() if r2[1] == 1 else ""), "close/reread/%s" % proto)
         ctx.case(nontrivial=wrote > 0, classes=classes, ident=case, sample=case)
     finally:
         s.finish()
